@@ -34,9 +34,11 @@ CONSTANTS
   RunModes,       \* set of kinds of running function (sv.mode is chosen from it initially):
                   \* "any": NewBasicService - the running function returns whenever it likes
                   \* "idle": NewIdleService - returns nil once the context is done
-                  \* "timer": NewTimerService - nil once the context is done, an iteration error any time
-  GuardNilCancel  \* FALSE: StopAsync as it is in the code (calls b.serviceCancel() even when it is nil)
-                  \* TRUE : a StopAsync that does nothing when it lost the New->Terminated race
+                  \* "timer": NewTimerService - the running function is dskit's own loop, specified here:
+                  \*          loop { wait for a tick | context done -> return nil;  on a tick run the iteration function;
+                  \*                 an iteration error -> return that error, whatever the state of the context }
+  GuardNilCancel  \* FALSE: StopAsync as it was in the pinned code (calls b.serviceCancel() even when it is nil: finding F4)
+                  \* TRUE : StopAsync as fixed (cancels only if the failed New->Terminated switch found Starting or Running)
 
 Callers == 1..NC
 Lis     == 1..NL
@@ -62,7 +64,7 @@ InitRec(present, mode) ==
   [ mode |-> mode, state |-> "New", failure |-> "none", cancelFn |-> "nil", ctxDone |-> FALSE, parentDone |-> FALSE,
     runCh |-> 0, termCh |-> 0,                 \* number of close() calls on the two waiter channels
     present |-> present,
-    mpc |-> "none", merr |-> "none", mfrom |-> "Starting", iters |-> 0,
+    mpc |-> "none", merr |-> "none", mfrom |-> "Starting", iters |-> 0, tpc |-> "none",
     fnlog |-> <<>>, startOK |-> "na", stopCtx |-> "na", stopArg |-> "na", errs |-> <<>>,
     thist |-> <<>>,                            \* every transition made, in order
     switchPanic |-> FALSE, sendClosed |-> FALSE,
@@ -132,21 +134,26 @@ MToRunning(s) == Notify(CloseRun([MustSwitch(s, "Starting") EXCEPT !.state = "Ru
 
 MCallRunEn(s) == s.mpc = "callRun"
 MCallRun(s) == IF "run" \in s.present
-               THEN [s EXCEPT !.mpc = "inRun", !.fnlog = Append(@, "run")]
+               THEN [s EXCEPT !.mpc = "inRun", !.fnlog = Append(@, "run"), !.tpc = IF s.mode = "timer" THEN "wait" ELSE "none"]
                ELSE [s EXCEPT !.mpc = "toStop", !.mfrom = "Running"]
 
 RunFnReturnEn(s, e) ==
   /\ s.mpc = "inRun"
   /\ CASE s.mode = "any"   -> e \in {"none", "erun"}
        [] s.mode = "idle"  -> e = "none" /\ s.ctxDone
-       [] s.mode = "timer" -> (e = "none" /\ s.ctxDone) \/ e = "erun"
+       [] s.mode = "timer" -> e = "none" /\ s.ctxDone /\ s.tpc = "wait"      \* select takes <-ctx.Done()
 RunFnReturn(s, e) == [s EXCEPT !.mpc = "toStop", !.mfrom = "Running", !.merr = e,
-                               !.errs = IF e = "none" THEN @ ELSE Append(@, e),
-                               !.iters = IF s.mode = "timer" /\ e = "erun" THEN @ + 1 ELSE @]   \* the failing iteration
+                               !.errs = IF e = "none" THEN @ ELSE Append(@, e), !.tpc = "none"]
 
-\* one iteration of a timer service that returns nil (an iteration error is RunFnReturn(s, "erun"))
-TickEn(s) == s.mode = "timer" /\ s.mpc = "inRun" /\ ~s.ctxDone /\ s.iters < 2
-Tick(s) == [s EXCEPT !.iters = @ + 1]
+\* The run loop of a timer service.  Tick: the select takes <-t.C (if the context is done as well Go may take
+\* either case) and calls the iteration function.  IterReturn: nil -> back to the select; an error -> the
+\* running function returns it, even if the context has been cancelled in the meantime.
+MaxIters == 2
+TickEn(s) == s.mode = "timer" /\ s.mpc = "inRun" /\ s.tpc = "wait" /\ s.iters < MaxIters
+Tick(s) == [s EXCEPT !.iters = @ + 1, !.tpc = "iter"]
+IterReturnEn(s, e) == s.mode = "timer" /\ s.mpc = "inRun" /\ s.tpc = "iter" /\ e \in {"none", "erun"}
+IterReturn(s, e) == IF e = "none" THEN [s EXCEPT !.tpc = "wait"]
+                    ELSE [s EXCEPT !.mpc = "toStop", !.mfrom = "Running", !.merr = e, !.errs = Append(@, e), !.tpc = "none"]
 
 MToStoppingEn(s) == s.mpc = "toStop"
 MToStopping(s) ==
@@ -187,8 +194,9 @@ StopSwitch(s, c) ==
   IF s.state = "New"
   THEN Notify(CloseTerm(CloseRun([s EXCEPT !.state = "Terminated", !.spc[c] = "done"])),
               Ev("Terminated", "New", "none"), TRUE)
+  ELSE IF GuardNilCancel                     \* dskit 2c3ab82: cancel only if the state found was Starting or Running
+       THEN [s EXCEPT !.ctxDone = @ \/ s.state \in {"Starting", "Running"}, !.spc[c] = "done"]
   ELSE IF s.cancelFn = "set" THEN [s EXCEPT !.ctxDone = TRUE, !.spc[c] = "done"]
-  ELSE IF GuardNilCancel THEN [s EXCEPT !.spc[c] = "done"]
   ELSE [s EXCEPT !.nilCalls = @ + 1, !.spc[c] = "panicked"]   \* b.serviceCancel() with a nil func: panic
 
 -----------------------------------------------------------------------------
@@ -249,6 +257,7 @@ aMToRunning       == MToRunningEn(sv) /\ sv' = MToRunning(sv)
 aMCallRun         == MCallRunEn(sv) /\ sv' = MCallRun(sv)
 aRunFnReturn(e)   == RunFnReturnEn(sv, e) /\ sv' = RunFnReturn(sv, e)
 aTick             == TickEn(sv) /\ sv' = Tick(sv)
+aIterReturn(e)    == IterReturnEn(sv, e) /\ sv' = IterReturn(sv, e)
 aMToStopping      == MToStoppingEn(sv) /\ sv' = MToStopping(sv)
 aMCancel          == MCancelEn(sv) /\ sv' = MCancel(sv)
 aMCallStop        == MCallStopEn(sv) /\ sv' = MCallStop(sv)
@@ -273,6 +282,7 @@ MainInternal == aMCallStart \/ aMAfterStart \/ aMToRunning \/ aMCallRun \/ aMToS
 FnReturns    == (\E e \in {"none", "estart"} : aStartFnReturn(e))
                 \/ (\E e \in {"none", "erun"} : aRunFnReturn(e))
                 \/ (\E e \in {"none", "estop"} : aStopFnReturn(e))
+                \/ (\E e \in {"none", "erun"} : aIterReturn(e))
 
 Init == \E p \in Presents, m \in RunModes : sv = InitRec(p, m)
 
